@@ -16,7 +16,7 @@ RULE = (
     "models (size-11 vector whose natural order differs from lexicographic order, 2x3 matrix, symmetric 3x3 "
     "matrix, scalars x10/x9 and b-before-a) solved with auto/SLSQP/L-BFGS-B; transitions = solves on the real "
     "code + handle look-ups; an evaluation = one comparison: objective_value vs the recipe's objective evaluated "
-    "by the reference interpreter at the returned values (every status that returns values, user orientation), "
+    "by the reference interpreter at the returned values (every status that returns values, user orientation; first solve, a repeat on the warm object, and a solve after flipping the sense with the same objective object), "
     "key set of Solution.values vs the recipe's variables, and each entry of Solution[handle] (scalar, vector, "
     "stepped / reversed slices, matrix, transpose, symmetric, row, column, diagonal, sub-matrix, by name, .get "
     "default) vs Solution.values[name].  Non-trivial = solve that returned values and an objective value."
@@ -61,7 +61,15 @@ def shards(tier, seed):
     return [("LP", i, 16) for i in range(16)] + [("NLP", i, 24) for i in range(24)] + [("H", i, 6) for i in range(6)]
 
 
-def check_solution(pr, method, handles=(), rep=None, want=None):
+class _SkipFlip(Exception):
+    pass
+
+
+# quick tier: the sense flip runs for the methods with their own code paths in optyx (the thorough tier flips for all)
+FLIP_METHODS = ("auto", "SLSQP", "trust-constr", "L-BFGS-B", "linprog", "highs")
+
+
+def check_solution(pr, method, handles=(), rep=None, want=None, extras=("repeat", "flip")):
     fails = Fails(want)
     try:
         P, b, built = PR.build_problem(pr)
@@ -99,6 +107,8 @@ def check_solution(pr, method, handles=(), rep=None, want=None):
         rep.skipped["objective-not-finite-at-returned-point"] += 1
     # warm object: the same problem solved again (caches filled by the first solve)
     try:
+        if "repeat" not in extras:
+            raise _SkipFlip()
         sol2 = P.solve(**({} if method == "auto" else {"method": method}))
         if rep:
             rep.transitions += 1
@@ -111,8 +121,34 @@ def check_solution(pr, method, handles=(), rep=None, want=None):
             elif ok2 and np.isfinite(sol2.objective_value) and abs(sol2.objective_value - ref2) > 1e-9 * (1 + abs(ref2)):
                 fails.add("objective-value:repeat", got=sol2.objective_value, expected=ref2, status=sol2.status.value,
                           method=method, values=sol2.values)
+    except _SkipFlip:
+        pass
     except Exception as ex:
         fails.add("exception:repeat-solve:" + type(ex).__name__, method=method, msg=str(ex)[:200])
+    # the other orientation of the SAME objective object on the warm problem (smallest, then largest value of f)
+    try:
+        if (FLIP_METHODS is not None and method not in FLIP_METHODS) or "flip" not in extras:
+            raise _SkipFlip()
+        import warnings as _w
+
+        with _w.catch_warnings():
+            _w.simplefilter("ignore")
+            (P.maximize if pr[1] == "min" else P.minimize)(P.objective)
+            sol3 = P.solve(**({} if method == "auto" else {"method": method}))
+        if rep:
+            rep.transitions += 2
+        if sol3.values and sol3.objective_value is not None and sorted(sol3.values) == sorted(names):
+            ref3, ok3 = PR.eval_scalar(pr[2], sol3.values)
+            if rep:
+                rep.evaluations += 1
+            if ok3 and np.isfinite(sol3.objective_value) and np.isfinite(ref3) and abs(sol3.objective_value - ref3) > 1e-9 * (1 + abs(ref3)):
+                fails.add("objective-value:after-sense-flip", got=sol3.objective_value, expected=ref3, status=sol3.status.value,
+                          method=method, values=sol3.values)
+    except _SkipFlip:
+        pass
+    except Exception as ex:
+        if rep:
+            rep.outcomes["raised-after-sense-flip:" + type(ex).__name__] += 1
     for h in handles:
         obj = b.build(h)
         exp_names = element_names(h)
@@ -140,8 +176,11 @@ def check_solution(pr, method, handles=(), rep=None, want=None):
 
 
 def explore(item, tier, seed):
+    global FLIP_METHODS
     kind, i, n = item
     rep = Report()
+    if tier == "thorough":
+        FLIP_METHODS = None
 
     def record(fs, case):
         seen = set()
@@ -163,7 +202,8 @@ def explore(item, tier, seed):
         methods = ("auto", "SLSQP", "trust-constr", "L-BFGS-B", "Nelder-Mead", "BFGS", "linprog")
         for idx, lab, pr, m in N.family(tier, methods=methods):
             if idx % n == i:
-                record(check_solution(pr, m, (), rep), {"family": "nlp", "label": lab, "problem": pr, "method": m})
+                ex_ = ("repeat", "flip") if tier == "thorough" else (("repeat",) if (idx // 7) % 2 == 0 else ("flip",))
+                record(check_solution(pr, m, (), rep, extras=ex_), {"family": "nlp", "label": lab, "problem": pr, "method": m, "extras": ex_})
                 if rep.states % 301 == 1:
                     rep.sample({"label": lab, "method": m})
     else:
@@ -182,6 +222,10 @@ def culprit(v):
     if case["family"] == "lp":
         return {"kind": v["kind"], "family": "lp", "spelling": lab[:1], "sense": case["problem"][1]}
     return {"kind": v["kind"], "family": case["family"], "label": lab, "method": case["method"]}
+
+
+def _extras_of(case):
+    return tuple(case.get("extras") or ("repeat", "flip"))
 
 
 def replay(art):
